@@ -515,20 +515,25 @@ def _level_flag_params(tree):
         for fn in ast.walk(mod):
             if not isinstance(fn, ast.FunctionDef):
                 continue
+            kind = "method" if isinstance(pf.parent(fn), ast.ClassDef) else "func"
             params = [a.arg for a in fn.args.args + fn.args.kwonlyargs]
             dflt = dict(zip([a.arg for a in fn.args.args][len(fn.args.args) - len(fn.args.defaults):], fn.args.defaults))
+
+            def tau_reads(nodes):
+                return any(isinstance(x, ast.Subscript) and pf.base_name(x) in params and any(
+                    isinstance(c, ast.Constant) and c.value == 4 for c in ast.walk(x.slice))
+                    for b in nodes for x in ast.walk(b))
             for q in params:
                 hit = False
                 for n in pf.walk_no_nested(fn):
-                    if isinstance(n, (ast.If, ast.IfExp)) and q in {x.id for x in ast.walk(n.test) if isinstance(x, ast.Name)}:
+                    if isinstance(n, (ast.If, ast.IfExp)) and isinstance(n.test, ast.Name) and n.test.id == q:
                         body = n.body if isinstance(n, ast.If) else [n.body]
-                        for b in body:
-                            for x in ast.walk(b):
-                                if isinstance(x, ast.Subscript) and pf.base_name(x) in params and any(
-                                        isinstance(c, ast.Constant) and c.value == 4 for c in ast.walk(x.slice)):
-                                    hit = True
+                        other = n.orelse if isinstance(n, ast.If) else [n.orelse]
+                        # the row is read under the flag and not without it
+                        if tau_reads(body) and not tau_reads(other):
+                            hit = True
                 if hit:
-                    out.setdefault(fn.name, {})[q] = (rel, dflt.get(q))
+                    out.setdefault((kind, fn.name), {})[q] = (rel, dflt.get(q), fn)
     return out
 
 
@@ -555,32 +560,35 @@ def rule_level_flag(chk):
         for c in ast.walk(mod):
             if not isinstance(c, ast.Call):
                 continue
-            name = c.func.id if isinstance(c.func, ast.Name) else (c.func.attr if isinstance(c.func, ast.Attribute) else None)
-            if name not in flags:
+            if isinstance(c.func, ast.Name):
+                key = ("func", c.func.id)
+            elif isinstance(c.func, ast.Attribute):
+                # module.function(...) or obj.method(...)
+                key = ("method", c.func.attr) if ("method", c.func.attr) in flags else ("func", c.func.attr)
+                if key[0] == "func" and not (isinstance(c.func.value, ast.Name) and c.func.value.id not in ("self", "cls")):
+                    continue
+            else:
                 continue
+            if key not in flags:
+                continue
+            name = key[1]
             fn = pf.enclosing_func(c)
-            for q, (drel, dflt) in flags[name].items():
-                # the argument bound to q
+            for q, (drel, dflt, callee) in flags[key].items():
                 arg = None
                 for k in c.keywords:
                     if k.arg == q:
                         arg = k.value
                 if arg is None:
-                    # positional binding through the callee's signature
-                    callee = [f for f in ast.walk(chk.tree.py(drel)) if isinstance(f, ast.FunctionDef) and f.name == name]
-                    if callee:
-                        ps = [a.arg for a in callee[0].args.args]
-                        off = 1 if (ps and ps[0] in ("self", "cls") and isinstance(c.func, ast.Attribute)) else 0
-                        if q in ps and ps.index(q) - off < len(c.args):
-                            arg = c.args[ps.index(q) - off]
-                if arg is None and q not in [a.arg for f in ast.walk(chk.tree.py(drel)) if isinstance(f, ast.FunctionDef)
-                                             and f.name == name for a in f.args.args + f.args.kwonlyargs]:
-                    continue
+                    ps = [a.arg for a in callee.args.args]
+                    off = 1 if key[0] == "method" else 0
+                    if q in ps and 0 <= ps.index(q) - off < len(c.args):
+                        arg = c.args[ps.index(q) - off]
                 sites.append((rel, fn, c, name, q, arg, dflt))
     derived_somewhere = {}
     for rel, fn, c, name, q, arg, dflt in sites:
         if arg is not None and not isinstance(arg, ast.Constant):
-            derived_somewhere[(name, q)] = "%s:%s" % (rel, pf.src(arg))
+            derived_somewhere[(name, q)] = "%s:%s(%s=%s)" % (rel, name, q, pf.src(arg))
+            derived_somewhere.setdefault(("*", q), "%s:%s(%s=%s)" % (rel, name, q, pf.src(arg)))
     for rel, fn, c, name, q, arg, dflt in sites:
         fq = pf.qualname(fn) if fn is not None else "<module>"
         eff = arg if arg is not None else dflt
@@ -593,7 +601,7 @@ def rule_level_flag(chk):
             chk.ok("level-flag", inst, nontrivial=bool(mentions))
             continue
         ev = _level_evidence(fn) if fn is not None else None
-        sib = derived_somewhere.get((name, q))
+        sib = derived_somewhere.get((name, q)) or derived_somewhere.get(("*", q))
         if ev is None and sib is None:
             chk.ok("level-flag", inst + " (no level dependence in sight: not decided)", nontrivial=False)
             chk.note("level-flag", "%s:%s" % (rel, fq), "%s(%s=%s) uses a fixed level; neither the caller nor a sibling call is "
